@@ -140,7 +140,9 @@ static void
 focus(struct initparser *p)
 {
 	struct type *t;
+	unsigned long long off;
 
+	off = 0;
 	switch (p->sub->type->kind) {
 	case TYPEARRAY:
 		t = p->sub->type->base;
@@ -152,12 +154,14 @@ focus(struct initparser *p)
 	case TYPEUNION:
 		p->sub->u.mem = p->sub->type->u.structunion.members;
 		t = p->sub->u.mem->type;
+		/* the first named member is not at offset 0 when unnamed bit-fields precede it */
+		off = p->sub->u.mem->offset;
 		break;
 	default:
 		fatal("internal error: init cursor has unexpected type");
 		return;  /* unreachable */
 	}
-	subobj(p, t, 0);
+	subobj(p, t, off);
 }
 
 static void
